@@ -169,7 +169,10 @@ fn gen_script(rng: &mut Rng, max_len: usize, allow_err: bool) -> Vec<Call> {
             10 if allow_err => V::Err,
             _ => V::Again,
         };
-        let eof_after = matches!(v, V::Func | V::Stream { .. }) && rng.chance(1, 6);
+        // `b.eof()` may also be true while the block still answers Again / Pending (its inputs have ended and are
+        // drained but it still owes output: Delay's zeros, AuEncode's header): both runners consult it only after a
+        // wait verdict, so there it must make no difference (the request does not even carry the flag)
+        let eof_after = if matches!(v, V::Func | V::Stream { .. }) { rng.chance(1, 6) } else { rng.chance(1, 8) };
         s.push(Call { v, eof_after, moved: rng.chance(1, 3) });
     }
     s
